@@ -596,11 +596,11 @@ def c12(tier):
     obs = []
     for und in (0, 1):
         if tier == "quick":
-            obs.append(dij_ob("C12", und, 2, 4 if not und else 3))
+            obs.append(dij_ob("C12", und, 2, 4 if not und else 3, optional_reach=["intermediate"]))
             for s in range(3):
                 obs.append(dij_ob("C12", und, 3, 3 if not und else 4, fixs=s, timeout=300, mem_gb=8))
         else:
-            obs.append(dij_ob("C12", und, 2, 4))
+            obs.append(dij_ob("C12", und, 2, 4, optional_reach=["intermediate"]))
             for s in range(3):
                 obs.append(dij_ob("C12", und, 3, 5 if not und else 6, fixs=s, timeout=3400, mem_gb=16))
             for s in range(4):
@@ -693,6 +693,64 @@ PROPS["C17"] = {"gen": c17,
     "outside": "independence from compiler and optimisation level (only clang-14 -O0+SROA IR is analysed; other configurations only through the replay builds); undefined behaviour inside libstdc++ itself or needing the real allocator (leaks, double free)",
     "explanation": "Within the bounds and inputs of the listed harnesses no precondition of a standard-library facility is violated (iterator validity, front/back/pop on empty, operator[] range, pop_heap on a non-heap for the comparator used, substr position), no array bound, pointer, signed-overflow, shift or division check of CBMC fails in the translated BaseGraph code. A result depending on an uninitialised value is a functional failure of the owning property (undef is nondeterministic in the encoding).",
     "assumptions": ["as in the re-used harnesses"]}
+
+
+BL_NAMES = {0: "nolabel", 1: "u8", 2: "u16", 3: "int", 4: "u64", 5: "float", 6: "double"}
+BL_SIZE = {0: 0, 1: 1, 2: 2, 3: 4, 4: 8, 5: 4, 6: 8}
+BIN_Q = {0: "layout", 1: "roundtrip", 2: "records-any-order", 3: "truncated", 4: "open-failure", 5: "swapBytes"}
+
+
+def bin_ob(prop, und, bl, q, n=3, emaxw=2, recs=2, **kw):
+    rec = 8 + BL_SIZE[bl]
+    defs = caps(n, n)
+    defs.update({"UND": und, "BL": bl, "Q": q, "EMAXW": emaxw, "RECS": recs, "VERIF_FILE_CAP": max(emaxw, recs) * rec + 1, "VERIF_LIST_CAP": max(n, recs) + 1})
+    b = graph_bounds(defs) + ",loadBinaryEdgeList=%d,le_bytes=10" % (max(emaxw, recs) + 3)
+    b = "harness=%d,file_set=%d,write=%d,read=%d,put_=%d," % (max(12, n * n + n + 2), defs["VERIF_FILE_CAP"] + 2, 10, 10, 10) + b
+    ob = {"id": "%s/%s/%s/%s%s" % (prop, "und" if und else "dir", BL_NAMES[bl], BIN_Q[q], "-n%d-e%d" % (n, emaxw) if q < 2 else ("-r%d" % recs if q in (2, 3) else "")), "src": "binio.cpp", "defs": defs, "bounds": b, "count_ub": True, "optional_reach": [""], "no_validate": q in (0, 1, 2, 3, 4) }
+    ob.update(kw)
+    return ob
+
+
+def c14(tier):
+    obs = []
+    for und in (0, 1):
+        for bl in range(7):
+            if tier == "quick" and und and bl not in (0, 3, 6):
+                continue
+            obs.append(bin_ob("C14", und, bl, 0, n=2 if und else 3, emaxw=2 if tier == "quick" else 3, mem_gb=8))
+            if tier == "thorough" and bl in (0, 3, 6):
+                obs.append(bin_ob("C14", und, bl, 1, n=2, emaxw=1, timeout=3400, mem_gb=12))
+            obs.append(bin_ob("C14", und, bl, 2, n=3, recs=2 if tier == "quick" else 3))
+            if not und:
+                obs.append(bin_ob("C14", und, bl, 5))
+        obs.append(bin_ob("C14", und, 3, 4))
+        obs.append(bin_ob("C14", und, 0, 4))
+    return obs
+
+
+def c15_bin(tier):
+    obs = []
+    for und in (0, 1):
+        for bl in range(7):
+            if tier == "quick" and und and bl not in (0, 3):
+                continue
+            obs.append(bin_ob("C15", und, bl, 3, n=3, recs=2 if tier == "quick" else 3))
+    return obs
+
+
+PROPS["C14"] = {"gen": c14,
+    "bounds": {"quick": "written graphs: 3 vertices (2 when undirected) / <=2 edges (layout), round trips are decided by composition: the layout obligation (the file is exactly one record per enumerated edge) with the loader obligation (any record sequence loads to exactly those edges and labels); the direct write-load-compare query on 2 vertices / 1 edge is in the thorough tier; hand-made files of 2 records with indices < 3 in any order; labels NoLabel, uint8_t, uint16_t, int, uint64_t (full range), float, double (4 table values); directed (all label types) and undirected (NoLabel, int, double)",
+               "thorough": "<=3 edges / 3 records; undirected for every label type"},
+    "outside": "longer files; behaviour on a big-endian host (SYSTEM_IS_BIG_ENDIAN is false in every build this sandbox can produce - only the swapBytes kernel that branch would use is checked)",
+    "explanation": "The writer and loader run on an in-memory stream model; bytes are compared with shifts in the harness (no memcpy on the host representation), the loaded graph with the abstraction of the written one.",
+    "assumptions": ["stream model: read copies what is there, a short read sets failbit (istream.unformatted)"]}
+
+
+PROPS["C15"] = {"gen": lambda tier: c15_bin(tier),
+    "bounds": {"quick": "binary: valid files of 2 records (indices < 3, all label types directed; NoLabel and int undirected) cut at EVERY byte offset 0..len", "thorough": "3 records"},
+    "outside": "longer files; indices too large to allocate (the model bounds vector sizes by its capacity - an assumption)",
+    "explanation": "The buffer is a valid file cut at a symbolic offset; the loader must throw or return exactly the edges of the complete records. A short read leaves its destination partly unwritten, and unwritten / stale locals are nondeterministic in the encoding, so an edge pieced together from a partial record is a reachable assertion failure.",
+    "assumptions": ["stream model: a short read copies what is there and sets failbit; once failed nothing is extracted"]}
 
 
 def obligations(prop, tier):
